@@ -676,6 +676,11 @@ _pixman_disabled (const char *name);
  * Utilities
  */
 pixman_bool_t
+_pixman_analyze_extent (pixman_image_t       *image,
+			const pixman_box32_t *extents,
+			uint32_t             *flags);
+
+pixman_bool_t
 _pixman_compute_composite_region32 (pixman_region32_t * region,
 				    pixman_image_t *    src_image,
 				    pixman_image_t *    mask_image,
